@@ -69,7 +69,7 @@ fn witness(kind: &str, fields: &[(&str, String)], expected: &str, actual: &str) 
 
 const PIECES: &[&str] = &[
     "0", "1", "2", "9", "10", "12", "007", "100", "999999999999999999", "9223372036854775807", "9223372036854775808", "99999999999999999999", ".", ".", "_", "pl", "alpha", "beta", "rc", "pre", "nb", "nb1", "nb2",
-    "nb10", "a", "b", "z", "n", "p", "r", "A", "RC", "Alpha", "BETA", "NB3", "Pre", "PL", "é", "ß", "+", "~", " ", "x", "al", "be", "pr", "\u{212A}", "\u{0130}", "\u{FF21}", "\u{0391}",
+    "nb10", "a", "b", "z", "n", "p", "r", "A", "RC", "Alpha", "BETA", "NB3", "Pre", "PL", "*", "?", "[", "]", "[0-9]", "é", "ß", "+", "~", " ", "x", "al", "be", "pr", "\u{212A}", "\u{0130}", "\u{FF21}", "\u{0391}",
 ];
 fn gen_version(r: &mut Rng) -> String {
     let n = r.below(6);
@@ -318,8 +318,8 @@ fn search_c05(r: &mut Rng, la: bool, iters: usize) -> bool {
             }
         }
     }
-    let frag = ["a", "b", "ab", "-", "*", "?", "[ab]", "[!a]", "[a-c]", "[0-9]", "1", ".", "x", "-1", "[!0-9]", "B"];
-    let nfrag = ["a", "b", "ab", "-", "1", ".", "x", "c", "B", "", "0", "9"];
+    let frag = ["a", "b", "ab", "-", "*", "?", "[ab]", "[!a]", "[a-c]", "[0-9]", "1", ".", "x", "-1", "[!0-9]", "B", "[^a]", "[^0-9]", "[a^]", "^", "!", "[.]", "[*]"];
+    let nfrag = ["a", "b", "ab", "-", "1", ".", "x", "c", "B", "", "0", "9", "^", "!", "*", "A"];
     for _ in 0..iters {
         let mut p = String::new();
         for _ in 0..(1 + r.below(5)) {
@@ -432,7 +432,7 @@ fn search_c06(r: &mut Rng, la: bool, iters: usize) -> bool {
 }
 
 fn search_c18(r: &mut Rng, la: bool, iters: usize) -> bool {
-    let bases = ["mktool", "foo-bar", "", "nb", "x-nb1", "é"];
+    let bases = ["mktool", "foo-bar", "", "nb", "x-nb1", "é", "-foo", "-", "a--b", "-x-"];
     for _ in 0..iters {
         let name = match r.below(4) {
             0 => gen_version(r),
@@ -441,6 +441,18 @@ fn search_c18(r: &mut Rng, la: bool, iters: usize) -> bool {
         };
         let pn = PkgName::new(&name);
         let (b, v) = split_name(&name);
+        // the pkg_summary accessors decompose PKGNAME the same way
+        if !name.contains('\n') {
+            let mut sm = Summary::new();
+            sm.set_pkgname(&name);
+            let want = (Some(b.as_str()), Some(v.as_str()));
+            let got = (sm.pkgbase(), sm.pkgversion());
+            // the statement fixes the accessors only for names whose base and version are both non-empty
+            if name.contains('-') && !b.is_empty() && !v.is_empty() && got != want {
+                witness("summary_pkgname", &[("name", name.clone())], &format!("{:?}", want), &format!("{:?}", got));
+                return false;
+            }
+        }
         if pn.pkgbase() != b || pn.pkgversion() != v || pn.pkgname() != name {
             witness("pkgname", &[("name", name.clone())], &format!("{}|{}", b, v), &format!("{}|{}", pn.pkgbase(), pn.pkgversion()));
             return false;
@@ -918,7 +930,7 @@ fn search_c12(r: &mut Rng, iters: usize) -> bool {
             if corrupt == 1 {
                 let h = &mut rec[r.below(6)].hash;
                 match r.below(5) {
-                    0 => { h.pop(); }                                  // truncated
+                    0 => { if r.below(2) == 0 { h.pop(); } else { *h = h.to_uppercase(); } }   // truncated / upper-cased hex letters
                     1 => { h.clear(); }                                // empty placeholder
                     2 => { h.push('0'); }                              // extra character
                     3 => { let k = r.below(h.len()); let c = if h.as_bytes()[k] == b'0' { "1" } else { "0" }; h.replace_range(k..k + 1, c); }
@@ -1002,6 +1014,7 @@ fn run_witness(args: &[String]) -> i32 {
             format!("{}|{}", pn.pkgbase(), pn.pkgversion())
         }
         "pkgrevision" => format!("{:?}", PkgName::new(&g("name")).pkgrevision()),
+        "summary_pkgname" => { let mut sm = Summary::new(); sm.set_pkgname(&g("name")); format!("{:?}", (sm.pkgbase(), sm.pkgversion())) }
         "summary_parse" => format!("{:?}", real_summary(&g("text"))),
         "summary_api_print" => {
             // replay: the canonical text's values set through the API in declaration order, multi-line variables by pushes
